@@ -16,6 +16,9 @@ package jschema
 //@   modifies *
 //@   ensures normal ==> s.loadOnce.once.fired && result == s.loadOnce.err
 //@   ensures normal && old(s.loadOnce.once.fired) ==> result == old(s.loadOnce.err)
+//@   defines normal && result == nil ==> s.inner != nil && s.inner.types != nil && s.file == old(s.file) && (s.inner.rootNode != nil ==> basisLex(s.inner.rootNode).file == s.file)
+//@   defines forall q *Schema :: q != s ==> q.inner == old(q.inner) && q.file == old(q.file)
+//@   defines forall r *internalSchema.Schema :: old(r.types) != nil ==> r.types != nil
 
 //@ func (*Schema).compile()
 //@   props C11
@@ -80,3 +83,20 @@ package jschema
 //@   modifies *
 //@   loop 0 invariant empty || !empty
 //@   loop 1 invariant empty || !empty
+
+// C17/C07: a type added to a schema is registered with ITS OWN file: errors found
+// inside the type are positioned in (and rendered against) the type's text.
+// ASSUMED about load (definitional): a loaded schema's nodes refer to the
+// schema's own file.
+//@ func New(name, content, oo)
+//@   props C17
+//@   trusted "constructor: a new Schema object over a new file (nothing else assumed)"
+//@   nopanic
+//@   defines result != nil && fresh(result)
+
+//@ func (*Schema).AddType(name, sc)
+//@   props C17 C07
+//@   requires s != nil
+//@   assumes typeis(sc, *Schema) ==> ival(sc) != 0
+//@   maypanic
+//@   modifies *
